@@ -22,6 +22,8 @@ import (
 	"github.com/cloudflare/circl/expander"
 	"github.com/cloudflare/circl/group"
 	"github.com/cloudflare/circl/secretsharing"
+	"github.com/cloudflare/circl/sign/ed25519"
+	"github.com/cloudflare/circl/sign/ed448"
 	"github.com/cloudflare/circl/xof"
 	"github.com/cloudflare/circl/xof/k12"
 	"github.com/cloudflare/circl/zz_verif/vlib"
@@ -350,6 +352,59 @@ func sharedKinds() []concKind {
 		}
 		ops := []func() string{op(0), op(1), op(2), op(3)}
 		return concPlan{ops: ops, want: []string{"ok true false", "ok true false", "ok true false", "ok true false"}, desc: []string{"Encrypt+KeyGen+Decrypt", "same", "same", "same"}}
+	}})
+	return ks
+}
+
+// edVariantKinds: the EdDSA variants (pure, ctx, ph) of one key used at the same time with contexts
+// of different length — they share the package's domain-separation code.
+func edVariantKinds() []concKind {
+	var ks []concKind
+	ks = append(ks, concKind{name: "sign/ed25519-variants", cost: 1, build: func(trial uint64) concPlan {
+		sk := ed25519.NewKeyFromSeed(sd(32, 16000+trial))
+		pk := sk.Public().(ed25519.PublicKey)
+		msg := sd(int(20+trial%50), 16100+trial)
+		ctxs := []string{"a", string(sd(17, 16200+trial)), string(sd(255, 16300+trial)), ""}
+		mk := func() []func() string {
+			var ops []func() string
+			ops = append(ops, func() string { s := ed25519.Sign(sk, msg); return fmt.Sprintf("%x %v", s, ed25519.Verify(pk, msg, s)) })
+			for _, c := range ctxs {
+				c := c
+				if c != "" {
+					ops = append(ops, func() string {
+						s := ed25519.SignWithCtx(sk, msg, c)
+						return fmt.Sprintf("%x %v %v", s, ed25519.VerifyWithCtx(pk, msg, s, c), ed25519.VerifyPh(pk, msg, s, c))
+					})
+				}
+				ops = append(ops, func() string {
+					s := ed25519.SignPh(sk, msg, c)
+					return fmt.Sprintf("%x %v %v", s, ed25519.VerifyPh(pk, msg, s, c), ed25519.Verify(pk, msg, s))
+				})
+			}
+			return ops
+		}
+		return concPlan{ops: mk(), want: wants(mk())}
+	}})
+	ks = append(ks, concKind{name: "sign/ed448-variants", cost: 2, build: func(trial uint64) concPlan {
+		sk := ed448.NewKeyFromSeed(sd(57, 16400+trial))
+		pk := sk.Public().(ed448.PublicKey)
+		msg := sd(int(20+trial%50), 16500+trial)
+		ctxs := []string{"", "a", string(sd(17, 16600+trial)), string(sd(255, 16700+trial))}
+		mk := func() []func() string {
+			var ops []func() string
+			for _, c := range ctxs {
+				c := c
+				ops = append(ops, func() string {
+					s := ed448.Sign(sk, msg, c)
+					return fmt.Sprintf("%x %v %v", s, ed448.Verify(pk, msg, s, c), ed448.VerifyPh(pk, msg, s, c))
+				}, func() string {
+					s := ed448.SignPh(sk, msg, c)
+					return fmt.Sprintf("%x %v %v", s, ed448.VerifyPh(pk, msg, s, c), ed448.Verify(pk, msg, s, c))
+				})
+			}
+			return ops
+		}
+		return concPlan{ops: mk(), want: wants(mk())}
 	}})
 	return ks
 }
